@@ -90,7 +90,7 @@ def narwhals_capture():
     rec = NwRecorder()
     LF = nw.LazyFrame
     saved = dict(with_columns=LF.with_columns, select=LF.select, group_by=LF.group_by, collect=LF.collect,
-                 join=LF.join, agg=ngb.LazyGroupBy.agg)
+                 join=LF.join, drop=LF.drop, agg=ngb.LazyGroupBy.agg)
     deriv = {}          # id(frame) -> tuple of stages
     groups = {}         # id(group_by object) -> (keys, pipeline of the source frame)
     keep = []           # keeps every object alive so that ids are not reused
@@ -137,8 +137,23 @@ def narwhals_capture():
         st = ("A", keys, {parse_name(k, rec.user_cols): nw_expr(v, rec.user_cols) for k, v in named.items()})
         return note(saved["agg"](self, *exprs, **named), src + (st,))
 
+    def drop(self, *columns, strict=True):
+        # `data.drop([names of the columns the next join creates], strict=False)`: a guard against an input column
+        # that happens to carry such a name; recorded as a pending marker that only the following join may consume
+        names = []
+        for c in columns:
+            names += list(c) if isinstance(c, (list, tuple)) else [c]
+        if strict:
+            raise ValueError("strict drop")
+        return note(saved["drop"](self, *columns, strict=strict), pipe(self) + (("X", tuple(names)),))
+
     def join(self, other, on=None, how="inner", **kw):
         left, right = pipe(self), pipe(other)
+        if left and left[-1][0] == "X":
+            dropped = {parse_name(n, None) for n in left[-1][1]}
+            left = left[:-1]
+            if not (right and right[-1][0] == "A" and dropped == set(right[-1][2])):
+                raise ValueError(f"drop before join removes {sorted(dropped)}, which are not the joined columns")
         on_t = (on,) if isinstance(on, str) else tuple(on or ())
         extra = {k: v for k, v in kw.items() if v is not None and not (k == "suffix" and v == "_right")}
         if (how != "left" or extra or len(right) != len(left) + 1 or right[:-1] != left or right[-1][0] != "A"
@@ -150,19 +165,21 @@ def narwhals_capture():
     def collect(self, *a, **kw):
         out = saved["collect"](self, *a, **kw)
         rec.stages = list(pipe(self))
+        if any(st[0] == "X" for st in rec.stages):
+            raise ValueError("a drop that is not consumed by a join of the dropped names")
         try:
             rec.collects.append((out.shape[0], tuple(out.columns)))
         except Exception:  # noqa: BLE001
             rec.collects.append((None, ()))
         return out
 
-    LF.with_columns, LF.select, LF.group_by, LF.collect, LF.join = with_columns, select, group_by, collect, join
+    LF.with_columns, LF.select, LF.group_by, LF.collect, LF.join, LF.drop = with_columns, select, group_by, collect, join, drop
     ngb.LazyGroupBy.agg = agg
     try:
         yield rec
     finally:
-        LF.with_columns, LF.select, LF.group_by, LF.collect, LF.join = (
-            saved["with_columns"], saved["select"], saved["group_by"], saved["collect"], saved["join"])
+        LF.with_columns, LF.select, LF.group_by, LF.collect, LF.join, LF.drop = (
+            saved["with_columns"], saved["select"], saved["group_by"], saved["collect"], saved["join"], saved["drop"])
         ngb.LazyGroupBy.agg = saved["agg"]
 
 
